@@ -10,6 +10,7 @@ minimised argument class of a finding.
 from __future__ import annotations
 
 import itertools
+import os
 
 from vf import explore
 
@@ -87,6 +88,19 @@ def L(v):
 
 
 OMIT = object()
+
+
+def note_dim(c, sh, d, label="size@dim"):
+    """derived (not chosen) feature: the extent of the selected axis, so that a finding class can say
+    'the reduced/squeezed axis has size 1' instead of listing (shape, dim) pairs"""
+    if d is OMIT or d is None or isinstance(d, (list, tuple)) or isinstance(d, bool):
+        return
+    r = len(sh)
+    if r == 0:
+        c.f[label] = "0d"
+    elif -r <= d < r:
+        n = sh[d]
+        c.f[label] = "0" if n == 0 else ("1" if n == 1 else ">1")
 
 
 def axes(rank, neg=True):
@@ -188,6 +202,16 @@ def _scalar_menu(op, dtype_of_tensor):
     return [("int:2", 2), ("int:-3", -3), ("float:2.5", 2.5), ("float:-0.5", -0.5), ("bool:True", True), ("int:0", 0)]
 
 
+def _second_pat(op, dtype):
+    """second operands: non-zero (integer division by zero is undefined in torch); shift amounts and integer
+    exponents small and non-negative (negative ones are undefined / refused)"""
+    if any(s in op for s in _SHIFT):
+        return "c"
+    if "pow" in op and dtype not in FLOATS:
+        return "c"
+    return "b"
+
+
 def fam_binary(c):
     sch = schema(c.op)
     shift = any(s in c.op for s in _SHIFT)
@@ -198,18 +222,14 @@ def fam_binary(c):
                 sh = c.shape()
                 dt = c.dtype()
                 first = (sh, dt)
-                c.g[name] = T(sh, dt, "a" if sch[0][0] == name else ("c" if shift else "b"))
+                c.g[name] = T(sh, dt, "a" if sch[0][0] == name else _second_pat(c.op, dt))
             else:
                 # second/third operand: tensor of every shape, or a python scalar in the Tensor slot
                 menu = [("t" + fs(s), ("t", s)) for s in c.cfg["shapes"]]
-                if c.op.split("::")[1].split(".")[0] not in ("addcdiv", "addcmul", "lerp", "isclose", "heaviside",
-                                                              "logaddexp", "logaddexp2", "atan2", "floor_divide",
-                                                              "maximum", "minimum", "logical_and", "logical_or",
-                                                              "logical_xor") or True:
-                    menu += [("py:" + k, ("s", v)) for k, v in _scalar_menu(c.op, first[1])]
+                menu += [("py:" + k, ("s", v)) for k, v in _scalar_menu(c.op, first[1])]
                 kind, v = c.pick(name, menu)
                 if kind == "t":
-                    c.g[name] = T(v, first[1], "c" if shift else "b")
+                    c.g[name] = T(v, first[1], _second_pat(c.op, first[1]))
                 else:
                     c.g[name] = S(v)
         elif ty == "number" and name in ("other", "exponent", "self", "weight", "value"):
@@ -263,6 +283,7 @@ def fam_reduce(c):
         elif name in ("dim", "dims", "dimensions") and ty == "int":
             menu = ([("omit", OMIT)] if has_def else []) + [(str(d), d) for d in axes(len(sh))]
             v = c.pick("dim", menu)
+            note_dim(c, sh, v)
             if v is not OMIT:
                 c.g[name] = S(v)
         elif name in ("dim", "dims") and ty == "Optional[int]":
@@ -321,9 +342,33 @@ FAMILIES = [
 QUICK_FAMILIES = ("unary", "binary", "reduce")
 
 
+def _families(tier):
+    from vf.props import c08_dom2
+    fams = [f for f in FAMILIES + c08_dom2.FAMILIES2 if tier != "quick" or f[0] in QUICK_FAMILIES]
+    only = os.environ.get("C08_FAMILIES")  # debugging aid: restrict the families that are planned
+    if only:
+        fams = [f for f in FAMILIES + c08_dom2.FAMILIES2 if f[0] in only.split(",")]
+    return fams
+
+
+def cases_for(tier, fam, op):
+    """All cases of one overload, re-enumerated (workers regenerate them instead of receiving them)."""
+    cfg = cfg_for(tier)
+    fn = [f[1] for f in _families(tier) if f[0] == fam][0]
+
+    def driver(ch):
+        if schema(op) is None:
+            return {"op": op, "fam": fam, "g": {}, "f": {}, "noschema": True}
+        c = Ctx(ch, cfg, op)
+        case = fn(c)
+        case["fam"] = fam
+        return case
+    return [case for _, case in explore.explore(driver, bound=0)]
+
+
 def driver_for(tier):
     cfg = cfg_for(tier)
-    fams = [f for f in FAMILIES if tier != "quick" or f[0] in QUICK_FAMILIES]
+    fams = _families(tier)
     table = [(fam, fn, op) for fam, fn, ops in fams for op in ops]
 
     def driver(ch):
